@@ -16,6 +16,7 @@
 EXTENDS Invoke
 CONSTANTS Scenarios,    \* set of scenarios (records of the shape the harness executes)
           RetVals,      \* values the abstract callee may return
+          Cov,          \* TRUE: every action taken prints its name (action coverage; TLC's -coverage cannot cope with this spec)
           MaxMoves,     \* how many gratuitous moves of the allocator are explored
           Bug           \* "none" | "keepVolatile" | "stackPacked" | "noAl" | "retWrongReg" | "misalign" | "dupArg" | "noRestore" | "wrongOrder"
 
@@ -63,6 +64,7 @@ NoteUsed(l) == used' = IF l[1] = "gp" /\ l[2] \in CalleeSavedGp THEN used \cup {
 
 Run == s.runs[1]
 St == m.k[1]
+Taken(a) == Cov => PrintT(<<"ACT", a>>)
 
 (* f is entered with its arguments where ABI.tla puts them, junk everywhere else *)
 Init == /\ s \in Scenarios
@@ -79,7 +81,7 @@ Held(v) == Low(ValueAt(loc[v]), VSz(s, v))
 
 (* --- steps that call nothing ------------------------------------------------------------------------- *)
 (* FuncNode::set_arg: the argument is where f's own caller put it *)
-IArg == /\ phase = "run" /\ AtSilent(m) /\ St.op = "arg"
+IArg == /\ phase = "run" /\ AtSilent(m) /\ St.op = "arg" /\ Taken("IArg")
         /\ LET l0 == FLoc(St.i)
                src == IF l0.k = "reg" THEN <<l0.g, l0.id>> ELSE <<"spill", St.v>> IN
            /\ loc' = FSet(loc, St.v, src)
@@ -87,7 +89,7 @@ IArg == /\ phase = "run" /\ AtSilent(m) /\ St.op = "arg"
         /\ m' = Silent(s, Run, m)
         /\ UNCHANGED <<s, regs, omem, used, moves, phase, ok>>
 
-IDef == /\ phase = "run" /\ AtSilent(m) /\ St.op \in {"imm", "mov"}
+IDef == /\ phase = "run" /\ AtSilent(m) /\ St.op \in {"imm", "mov"} /\ Taken("IDef")
         /\ LET val == IF St.op = "imm" THEN Low(St.val, VSz(s, St.v)) ELSE Held(St.a) IN
            \E l \in Places(St.v) :
               /\ loc' = FSet(loc, St.v, l)
@@ -96,20 +98,20 @@ IDef == /\ phase = "run" /\ AtSilent(m) /\ St.op \in {"imm", "mov"}
         /\ m' = Silent(s, Run, m)
         /\ UNCHANGED <<s, omem, moves, phase, ok>>
 
-IArith == /\ phase = "run" /\ AtSilent(m) /\ St.op \in {"add", "addi"}
+IArith == /\ phase = "run" /\ AtSilent(m) /\ St.op \in {"add", "addi"} /\ Taken("IArith")
           /\ LET sz == VSz(s, St.v)
                  b == IF St.op = "add" THEN Held(St.a) ELSE Low(St.val, sz) IN
              Put(loc[St.v], St.v, AddL(Held(St.v), b, sz), sz)
           /\ m' = Silent(s, Run, m)
           /\ UNCHANGED <<s, loc, omem, used, moves, phase, ok>>
 
-IStore == /\ phase = "run" /\ AtSilent(m) /\ St.op = "store"
+IStore == /\ phase = "run" /\ AtSilent(m) /\ St.op = "store" /\ Taken("IStore")
           /\ omem' = FSet(omem, St.slot, [sz |-> VSz(s, St.v), val |-> Held(St.v)])
           /\ m' = Silent(s, Run, m)
           /\ UNCHANGED <<s, loc, regs, spill, used, moves, phase, ok>>
 
 (* loop / ifnz: control only (the branch is taken on the value the machine holds) *)
-ICtl == /\ phase = "run" /\ AtSilent(m) /\ St.op \in {"loop", "ifnz", "stk", "stkrt"}
+ICtl == /\ phase = "run" /\ AtSilent(m) /\ St.op \in {"loop", "ifnz", "stk", "stkrt"} /\ Taken("ICtl")
         /\ m' = IF St.op = "ifnz"
                 THEN [m EXCEPT !.k = (IF IsZero(Held(St.v)) THEN <<>> ELSE St.body) \o Tail(m.k)]
                 ELSE Silent(s, Run, m)
@@ -117,7 +119,7 @@ ICtl == /\ phase = "run" /\ AtSilent(m) /\ St.op \in {"loop", "ifnz", "stk", "st
         /\ UNCHANGED <<s, loc, regs, spill, used, moves, phase, ok>>
 
 (* the allocator may move a value at any time (at most to a free place) *)
-IMove == /\ phase = "run" /\ m.k # <<>> /\ moves < MaxMoves
+IMove == /\ phase = "run" /\ m.k # <<>> /\ moves < MaxMoves /\ Taken("IMove")
          /\ moves' = moves + 1
          /\ \E v \in DOMAIN loc : \E l \in Places(v) \ {loc[v]} :
                /\ loc' = [loc EXCEPT ![v] = l]
@@ -127,57 +129,59 @@ IMove == /\ phase = "run" /\ m.k # <<>> /\ moves < MaxMoves
 
 (* --- invoke ------------------------------------------------------------------------------------------ *)
 Cal == s.callees[St.c]
-CLocs == ArgLocs(Cal)
 (* (1) live values leave the registers the callee may overwrite *)
 Evacuated(v) == Bug # "keepVolatile" /\ loc[v][1] # "spill" /\ Volatile(loc[v])
 LocE == [v \in DOMAIN loc |-> IF Evacuated(v) THEN <<"spill", v>> ELSE loc[v]]
 SpillE == [v \in DOMAIN spill \cup { x \in DOMAIN loc : Evacuated(x) } |-> IF v \in DOMAIN loc /\ Evacuated(v) THEN Held(v) ELSE spill[v]]
 
-(* (2) designated values *)
+(* (2) designated values; L = sequence of ABI locations of the callee's arguments (computed once per call) *)
 ArgVal(j) == LET d == St.args[j] psz == Sz(Cal.args[j]) IN
              IF d.k = "v" THEN Low(ValueAt(loc[d.v]), psz) ELSE IF d.k = "imm" THEN Low(d.val, psz) ELSE Low(Junk(16), psz)
 FirstUse(j) == \A j2 \in 1..(j - 1) : St.args[j2] # St.args[j]
 Passed(j) == IF Bug = "dupArg" /\ St.args[j].k = "v" /\ ~FirstUse(j) THEN Low(Junk(16), Sz(Cal.args[j])) ELSE ArgVal(j)
-LocOf(j) == CHOOSE x \in CLocs[j].pk[1] : TRUE
 (* position of argument j among the register arguments of its group, reversed by the seeded slip "wrongOrder" *)
-RegArgs(g) == { j \in 1..Len(Cal.args) : LocOf(j).k = "reg" /\ LocOf(j).g = g }
-Mirror(j) == LET S0 == RegArgs(LocOf(j).g)
-                 rank(x) == Cardinality({ y \in S0 : y < x })
-             IN CHOOSE y \in S0 : rank(y) = Cardinality(S0) - 1 - rank(j)
-Src(j) == IF Bug = "wrongOrder" /\ LocOf(j).k = "reg" /\ SameKind(Cal.args[j], Cal.args[Mirror(j)]) THEN Mirror(j) ELSE j
+RegArgs(L, g) == { j \in 1..Len(L) : L[j].k = "reg" /\ L[j].g = g }
+Mirror(L, j) == LET S0 == RegArgs(L, L[j].g)
+                    rank(x) == Cardinality({ y \in S0 : y < x })
+                IN CHOOSE y \in S0 : rank(y) = Cardinality(S0) - 1 - rank(j)
+Src(L, j) == IF Bug = "wrongOrder" /\ L[j].k = "reg" /\ SameKind(Cal.args[j], Cal.args[Mirror(L, j)]) THEN Mirror(L, j) ELSE j
 
-GpView == [q \in 1..6 |->
-             LET js == { j \in 1..Len(Cal.args) : LocOf(j) = A!R("gp", SysvGpOrder[q]) } IN
-             IF js = {} THEN Junk(4) ELSE LET j == CHOOSE x \in js : TRUE IN Widen(Passed(Src(j)), Sz(Cal.args[j]), 4)]
-VecView == [q \in 1..8 |->
-             LET js == { j \in 1..Len(Cal.args) : LocOf(j) = A!R("vec", q - 1) } IN
-             IF js = {} THEN Junk(16) ELSE LET j == CHOOSE x \in js : TRUE IN Widen(Passed(Src(j)), Sz(Cal.args[j]), 16)]
-StackArgs == { j \in 1..Len(Cal.args) : LocOf(j).k = "stack" }
+GpView(L) == [q \in 1..6 |->
+                LET js == { j \in 1..Len(L) : L[j] = A!R("gp", SysvGpOrder[q]) } IN
+                IF js = {} THEN Junk(4) ELSE LET j == CHOOSE x \in js : TRUE IN Widen(Passed(Src(L, j)), Sz(Cal.args[j]), 4)]
+VecView(L) == [q \in 1..8 |->
+                 LET js == { j \in 1..Len(L) : L[j] = A!R("vec", q - 1) } IN
+                 IF js = {} THEN Junk(16) ELSE LET j == CHOOSE x \in js : TRUE IN Widen(Passed(Src(L, j)), Sz(Cal.args[j]), 16)]
+StackArgs(L) == { j \in 1..Len(L) : L[j].k = "stack" }
 (* the seeded slip "stackPacked" stores 4-byte arguments at 4-byte granularity *)
-StackOff(j) == IF Bug = "stackPacked"
-               THEN LET before == { x \in StackArgs : x < j } IN
-                    IF \A x \in before \cup {j} : Sz(Cal.args[x]) <= 4 THEN 4 * Cardinality(before) ELSE LocOf(j).off
-               ELSE LocOf(j).off
+StackOff(L, j) == IF Bug = "stackPacked"
+                  THEN LET before == { x \in StackArgs(L) : x < j } IN
+                       IF \A x \in before \cup {j} : Sz(Cal.args[x]) <= 4 THEN 4 * Cardinality(before) ELSE L[j].off
+                  ELSE L[j].off
 NWords == s.stackwords
-StackBytes == [b \in 0..(8 * NWords - 1) |->
-                 LET js == { j \in StackArgs : b >= StackOff(j) /\ b < StackOff(j) + Sz(Cal.args[j]) } IN
-                 IF js = {} THEN -1 ELSE LET j == CHOOSE x \in js : \A y \in js : y <= x
-                                             v == Passed(j) o == b - StackOff(j)
-                                             limb == IF Sz(Cal.args[j]) = 1 THEN v[1] ELSE v[o \div 2 + 1] IN
-                                         IF o % 2 = 0 THEN limb % 256 ELSE limb \div 256]
-ByteOr(b, dflt) == IF b = -1 THEN dflt ELSE b
-StackView == [w \in 1..NWords |-> [q \in 1..4 |-> ByteOr(StackBytes[8 * (w - 1) + 2 * (q - 1)], JunkL % 256)
-                                              + 256 * ByteOr(StackBytes[8 * (w - 1) + 2 * (q - 1) + 1], JunkL \div 256)]]
-StackWordsUsed == IF StackArgs = {} THEN 0 ELSE LET n == Len(Cal.args) IN (CLocs[n].off + 7) \div 8
+StackView(L) ==
+  LET sa == StackArgs(L)
+      off == [j \in sa |-> StackOff(L, j)]
+      val == [j \in sa |-> Passed(j)]
+      byte(b) == LET js == { j \in sa : b >= off[j] /\ b < off[j] + Sz(Cal.args[j]) } IN
+                 IF js = {} THEN (IF b % 2 = 0 THEN JunkL % 256 ELSE JunkL \div 256)
+                 ELSE LET j == CHOOSE x \in js : \A y \in js : y <= x
+                          o == b - off[j]
+                          limb == IF Sz(Cal.args[j]) = 1 THEN val[j][1] ELSE val[j][o \div 2 + 1] IN
+                      IF o % 2 = 0 THEN limb % 256 ELSE limb \div 256 IN
+  [w \in 1..NWords |-> [q \in 1..4 |-> byte(8 * (w - 1) + 2 * (q - 1)) + 256 * byte(8 * (w - 1) + 2 * (q - 1) + 1)]]
 
 IInvoke ==
-  /\ phase = "run" /\ AtInvoke(m)
+  /\ phase = "run" /\ AtInvoke(m) /\ Taken("IInvoke")
   /\ \E rv \in RetVals :
-       LET rother == [q \in 1..16 |-> (rv[q] + 4660) % 65536]
-           retGp == A!R("gp", 0) \in A!ExpectedRet(ABIName, Cal.ret)[1]
-           obs == [idx |-> Cal.thunk, gp |-> GpView, vec |-> VecView, stack |-> StackView,
-                   al |-> IF Cal.va # 255 /\ Bug # "noAl" THEN NVecRegs(CLocs) ELSE 193,
-                   sp64 |-> IF Bug = "misalign" /\ StackWordsUsed % 2 = 1 THEN 0 ELSE 8,
+       LET cl == ArgLocs(Cal)
+           L == [j \in 1..Len(Cal.args) |-> CHOOSE x \in cl[j].pk[1] : TRUE]
+           used8 == IF Len(Cal.args) = 0 THEN 0 ELSE (cl[Len(Cal.args)].off + 7) \div 8
+           rother == [q \in 1..16 |-> (rv[q] + 4660) % 65536]
+           retGp == Cal.ret = "void" \/ A!R("gp", 0) \in A!ExpectedRet(ABIName, Cal.ret)[1]
+           obs == [idx |-> Cal.thunk, gp |-> GpView(L), vec |-> VecView(L), stack |-> StackView(L),
+                   al |-> IF Cal.va # 255 /\ Bug # "noAl" THEN NVecRegs(cl) ELSE 193,
+                   sp64 |-> IF Bug = "misalign" /\ used8 % 2 = 1 THEN 0 ELSE 8,
                    ret |-> [rax |-> IF retGp THEN Pad(rv, 4) ELSE Pad(rother, 4), rdx |-> Junk(4),
                             v0 |-> IF retGp THEN rother ELSE rv, v1 |-> Junk(16)]]
            (* (5) where the caller picks the result up *)
@@ -205,7 +209,7 @@ SlotView(sl) ==
   ELSE [q \in 1..SlotLimbs |-> FillLimb]
 
 ILeave ==
-  /\ phase = "run" /\ AtEnd(m)
+  /\ phase = "run" /\ AtEnd(m) /\ Taken("ILeave")
   /\ LET hasRet == s.retv # 0 /\ s.f.ret # "void"
          retGp == hasRet /\ A!R("gp", 0) \in A!ExpectedRet(ABIName, s.f.ret)[1]
          rv == IF hasRet THEN Held(s.retv) ELSE Junk(4)
